@@ -247,11 +247,11 @@ def count_checkpoints(algorithm):
 # results held at each COMPLETED save_results call, and the simulation object itself (final psi also
 # when save_psi=False).  A deterministic clock for `save_every_x_seconds`.
 # --------------------------------------------------------------------------------------------
-OBS = {'group': [], 'saves': [], 'sim': None}
+OBS = {'group': [], 'saves': [], 'sim': None, 'sweeps': []}
 
 
 def reset_obs():
-    OBS['group'], OBS['saves'], OBS['sim'] = [], [], None
+    OBS['group'], OBS['saves'], OBS['sim'], OBS['sweeps'] = [], [], None, []
 
 
 def _n_records(sim):
@@ -294,6 +294,21 @@ def instrument():
     Simulation.group_split = group_split
     Simulation.save_results = save_results
     Simulation._c18_instrumented = True
+
+    # the state of the DMRG engine that an optimizing sweep starts from: [sweeps done so far, [class, amplitude] of the
+    # active mixer | None (no mixer), number of entries of sweep_stats]
+    from tenpy.algorithms.dmrg import DMRGEngine
+    o_sweep = DMRGEngine.sweep
+
+    def sweep(self, optimize=True, meas_E_trunc=False):
+        if optimize:
+            mx = getattr(self, 'mixer', None)
+            amp = None if mx is None else getattr(mx, 'amplitude', None)
+            OBS['sweeps'].append([int(self.sweeps), None if mx is None else [type(mx).__name__, None if amp is None else float(amp)],
+                                  len(self.sweep_stats.get('E', []))])
+        return o_sweep(self, optimize, meas_E_trunc)
+
+    DMRGEngine.sweep = sweep
 
 
 class FakeClock:
